@@ -221,7 +221,8 @@ def coq_prior(items, f):
     return "(P2 %s %s)" % (f(items[0]), f(items[1]))
 
 
-def coq_store(ids, d):
+def coq_store_literal(ids, d):
+    """the store as a Coq list literal (slow to parse for large stores; kept for debugging)"""
     segs = []
     for s in d["segs"]:
         cmds = ["(mk_scmd %d %s %s %s %d)" % (ids.get(c["id"]), coq_prio(c["prio"]),
@@ -232,6 +233,42 @@ def coq_store(ids, d):
                                                  coq_prior(s["prior"], coq_loc), vlib.coq_list(s["skip"], coq_loc)))
     heads = ["(%d, L %d %d)" % (ids.get(h[0]), h[2], h[1]) for h in d["heads"]]
     return "(mk_store %s %s)" % (vlib.coq_list(segs), vlib.coq_list(heads))
+
+
+def coq_store(ids, d):
+    """the store as a compact string of comma-terminated hex numbers, parsed inside Coq (SyncCases.store_of)"""
+    out = []
+    w = out.append
+    w(len(d["segs"]))
+    for s in d["segs"]:
+        w(s["idx"])
+        w(s["first"])
+        w(len(s["prior"]))
+        for l in s["prior"]:
+            w(l[0])
+            w(l[1])
+        w(len(s["skip"]))
+        for l in s["skip"]:
+            w(l[0])
+            w(l[1])
+        w(len(s["cmds"]))
+        for c in s["cmds"]:
+            w(ids.get(c["id"]))
+            p = c["prio"]
+            w({"M": 0, "F": 2, "I": 3}.get(p[0], 1))
+            w(int(p[1:]) if p[0] == "B" else 0)
+            w(len(c["parents"]))
+            for a in c["parents"]:
+                w(ids.get(a[0]))
+                w(a[1])
+            w(0 if c["plen"] < 0 else c["plen"] + 1)
+            w(c["dlen"])
+    w(len(d["heads"]))
+    for h in d["heads"]:
+        w(ids.get(h[0]))
+        w(h[2])
+        w(h[1])
+    return '(store_of "%s"%%string)' % "".join("%x," % n for n in out)
 
 
 def dump_ids(d):
@@ -606,3 +643,16 @@ def coq_byte_list(bs):
 
 
 COQ_HEADER_STR = COQ_HEADER.replace("Open Scope N_scope.", "From Coq Require Import String.\nOpen Scope N_scope.")
+
+
+def replay_script(ctx):
+    """the world script of a replay file given with --replay, if any"""
+    if not getattr(ctx, "replay_in", None):
+        return None
+    try:
+        import json
+        obj = json.load(open(ctx.replay_in))
+    except Exception:
+        return None
+    sc = obj.get("script")
+    return list(sc) if isinstance(sc, list) and sc and sc[0].startswith("world") else None
